@@ -32,7 +32,7 @@ def setup():
 def run_sh(cmd: bytes):
     try:
         p = subprocess.run([b"/bin/sh", b"-c", cmd], stdout=subprocess.PIPE, stderr=subprocess.PIPE,
-                           timeout=60, cwd="/", env={"PATH": "/nonexistent", "IFS": " \t\n"})
+                           timeout=60, cwd="/", env={"PATH": "/nonexistent", "IFS": " \t\n", "HOME": "/c16 home/of the user"})   # (a HOME to expand '~' to)
         return p.returncode, p.stdout, p.stderr
     except subprocess.TimeoutExpired:
         return -999, b"", b"timeout"
@@ -64,6 +64,8 @@ def run(ctx):
             for ch in sp_chars:
                 sparse.append(base[:pos] + bytes([ch]) + base[pos + 1:])
     randn += sparse
+    # names the shell would expand as a whole word (tilde prefixes: HOME, a user's home), otherwise made of safe characters
+    randn += [b"~", b"~/a.c", b"~root", b"~root/a.c", b"~/", b"~root/", b"a~", b"~a.c~", b"~+", b"x/~", b"~.", b"~_"]
     groups = []   # (mode, nin, [names])
     rotations = (0, 5, 11) if ctx.tier == "thorough" else (0, 7)
 
